@@ -43,7 +43,7 @@ prop("C05",
                                     "gradient_voxels_checked": 800000, "sensitivity_voxels_checked": 400000,
                                     "hessian_checks": 200000, "orders_checked": 12000, "subsets_evaluated": 1800,
                                     # full-data PENALISED Hessian product against out0 + sum of subset products - H_prior v
-                                    "penalised_full_hessian_checks": 250}, hist=6),
+                                    "penalised_full_hessian_checks": 250, "penalised_full_gradient_checks": 250}, hist=6),
               "thorough": _scaled(300, {"bins_in_P": 2000000, "orders_checked": 100000, "value_checks": 50000,
                                         "hessian_checks": 1500000, "subsets_evaluated": 15000}, hist=45)},
      rule=("case = one generated configuration: cylindrical scanner with 8..24 (thorough 32) detectors per ring and 1..4 (5) rings, "
